@@ -19,7 +19,7 @@ BUDGET = {'quick': 250, 'thorough': 1500}
 RULE = ('Hypothesis-generated base histories (dispatch / disable / enable / add_handler / remove_handler over 1-4 '
         'recorder handlers listening to subsets of 4 event names, on a plain EventDispatcher or on a World used '
         'as dispatcher; in some cases every dispatch issued while disabled is repeated 64-150 times: long backlogs, '
-        'faults then at sampled positions around the powers of two). Each base history is executed fault-free and then once for EVERY pair (global delivery '
+        'faults then at sampled positions around the powers of two, counted globally and from the start of the long release). Each base history is executed fault-free and then once for EVERY pair (global delivery '
         'position k, fault in {raise RuntimeError, raise Quit, raise SwitchWorld, set dispatch_enabled=False, '
         're-entrant dispatch_enabled=True, disable-then-enable inside the callback, disable and dispatch a further '
         'event inside the callback, register another handler inside the callback, remove another handler inside the callback}), '
@@ -100,7 +100,7 @@ def strategy():
         'reg': st.integers(0, 15),
         'ops': worldops.chunked(op, 30),
         # scale: 0, or how many times every dispatch issued while dispatching is disabled is repeated (long backlogs)
-        'amp': worldops.size_amp(none=40),
+        'amp': worldops.size_amp(none=18),
         # a second dispatcher living next to the one under test: 0 none, 1 disabled throughout (own backlog, enabled
         # at the very end), 2 enabled throughout, 3 disabled but enabled-and-disabled-again every few steps
         'other': st.integers(0, 5).map(lambda v: v if v <= 3 else 0)})
@@ -196,6 +196,7 @@ class Execution:
         self.tolerate_token = None      # occurrence during which a callback disabled dispatching
         self.last_token_per_handler = {}
         self.current_exc = None
+        self.big_release_at = None
         self.added_at = {}              # handler registered by a callback -> occurrence during which that happened
         self.removed_at = {}
         self.in_release = False
@@ -414,6 +415,9 @@ class Execution:
         self.enabled = True
         self.tolerate_token = None
         self.in_release = True
+        if len(pending_now) >= 40 and self.big_release_at is None:
+            self.big_release_at = self.deliveries       # global delivery position at which a long release starts
+            self.flags['long_release'] += 1
 
         def call():
             return with_budget(ENABLE_BUDGET, setattr, self.d, 'dispatch_enabled', True)
@@ -596,7 +600,9 @@ def run_case(case):
     kinds = range(len(FAULTS))
     if case.get('amp') and m > 40:
         # long backlogs: faults are injected at the first and last delivery positions and around the powers of two
-        positions = sorted({k for k in ([0, 1, m - 1] + [b + d for b in (64, 128, 256) for d in (-1, 0, 1)])
+        inside = [] if base.big_release_at is None else [base.big_release_at + d for d in
+                                                         (0, 1, 2, 31, 62, 63, 64, 65, 66, 127, 128, 129, 130)]
+        positions = sorted({k for k in ([0, 1, m - 1] + [b + d for b in (64, 128, 256) for d in (-1, 0, 1)] + inside)
                             if 0 <= k < m})
         kinds = (0, 3, 5, 6)    # RuntimeError, disable, disable-then-enable, disable-and-dispatch
     for k in positions:
